@@ -1,11 +1,17 @@
-(* TypeManager::check_type_range (manager.cpp), GENERATED into Cxx/Gen_CheckTypeRange.v by translators/cxx_pure.py (target
-   check_type_range) from clang's AST: the closure the function hands to evaluate_safe - a switch over the type code that sets
-   min_allowed / max_allowed, followed by the range test.  Lemmas for property C04: the generated function rejects exactly
-   the values outside the table [C04.Gen_RangeTable.gen_range] (which translators/ranges.py extracts from the same text with
-   regular expressions), with the rejection test [gen_reject]. *)
+(* TypeManager::check_type_range (manager.cpp), GENERATED into C04/Gen_CheckTypeRange.v by translators/cxx_pure.py (target
+   check_type_range) from clang's AST on every ./check C04: the closure the function hands to evaluate_safe - a switch over the
+   type code that sets min_allowed / max_allowed, followed by the range test.  Lemmas for property C04:
+   [check_type_range_is_spec] the C++ text as clang reads it accepts exactly the closed interval of the reference semantics
+                              [Lang.Sem.in_range] for every C04 type and every int64 value and throws on every other one - proved
+                              from the generated term alone (nothing translators/ranges.py produces is used), so an edited bound
+                              or comparison operator breaks THIS obligation whatever the regex translator makes of the text;
+   [check_type_range_table]   the generated function rejects exactly the values outside the table [C04.Gen_RangeTable.gen_range]
+                              (which translators/ranges.py extracts from the same text with regular expressions), with the
+                              rejection test [gen_reject]: the two independent readings of the C++ text agree;
+   [check_type_range_default], [type_codes_are_the_labels]  every other type code has no range. *)
 From Coq Require Import ZArith Bool String List Lia ZifyBool.
-From Cb Require Import Cxx.Cxx Cxx.CxxLemmas Cxx.Gen_CheckTypeRange.
-From Cb Require Lang.Syntax C04.Gen_RangeTable.
+From Cb Require Import Cxx.Cxx Cxx.CxxLemmas C04.Gen_CheckTypeRange.
+From Cb Require Lang.Syntax Lang.Sem C04.Gen_RangeTable.
 Import ListNotations.
 Local Open Scope string_scope.
 Local Open Scope Z_scope.
@@ -35,6 +41,18 @@ Proof. intros H1 H2. rewrite Z.mod_small; lia. Qed.
 Lemma sconv64_id a : (-9223372036854775808 <=? a) = true -> (a <=? 9223372036854775807) = true ->
   (a - -9223372036854775808) mod 18446744073709551616 + -9223372036854775808 = a.
 Proof. intros H1 H2. rewrite Z.mod_small; lia. Qed.
+
+(* for every integer type of the property and every int64 value: exactly the closed interval of the reference semantics *)
+Lemma check_type_range_is_spec t code v : type_code (S.base t) = Some code -> in_range TLong v = true ->
+  verdict_of (run fn_check_type_range "" (ctr_args code (S.uns t) v)) =
+  if Cb.Lang.Sem.in_range t v then Accepted else Rejected "Value out of range for type".
+Proof.
+  destruct t as [b u]. cbn [S.base S.uns]. intros Hc Hv. unfold in_range in Hv. cbn [tmin tmax] in Hv. apply andb_true_iff in Hv as [Hv1 Hv2].
+  destruct b; vm_compute in Hc; try discriminate; injection Hc as <-; destruct u; unfold ctr_args; cbn [b2z];
+    cxx_tree; rewrite Hv1, Hv2; cbv beta iota; fold_consts; rewrite ?(sconv64_id _ Hv1 Hv2);
+    unfold Cb.Lang.Sem.in_range; cbn [Cb.Lang.Sem.range S.base S.uns]; unfold Cb.Lang.Sem.int64_min, Cb.Lang.Sem.int64_max;
+    cxx_cases; cbn [verdict_of]; try reflexivity; try (exfalso; lia).
+Qed.
 
 (* for every type code (an int) and every int64 value: exactly the table *)
 Lemma check_type_range_table b u code v : type_code b = Some code -> in_range TLong v = true ->
@@ -75,5 +93,10 @@ Example accepts_minus_128_for_tiny : verdict_of (run fn_check_type_range "" (ctr
 Proof. vm_compute. reflexivity. Qed.
 Example unsigned_long_stops_at_int64_max : verdict_of (run fn_check_type_range "" (ctr_args 4 true (-1))) = Rejected "Value out of range for type".
 Proof. vm_compute. reflexivity. Qed.
+Example accepts_the_limits_of_unsigned_int :
+  verdict_of (run fn_check_type_range "" (ctr_args 3 true 4294967295)) = Accepted /\
+  verdict_of (run fn_check_type_range "" (ctr_args 3 true 4294967296)) = Rejected "Value out of range for type".
+Proof. vm_compute. split; reflexivity. Qed.
 Print Assumptions check_type_range_table.
+Print Assumptions check_type_range_is_spec.
 Print Assumptions check_type_range_default.
